@@ -601,6 +601,35 @@ def load_dfu(dev_holder, prints, sleeps, fw_holder, argv):
     def _print(*a, **k):
         prints.append(' '.join(str(x) for x in a))
 
+    import os as _real_os
+    import types as _types
+
+    def _reported_size(path=None):
+        if 'reported_size' in fw_holder:
+            return fw_holder['reported_size']
+        fw = fw_holder['fw']
+        return fw.n if isinstance(fw, SymLenFW) else len(fw)
+
+    class _OsPath:
+        def __getattr__(self, name):
+            return getattr(_real_os.path, name)
+
+        getsize = staticmethod(_reported_size)
+        exists = staticmethod(lambda p: True if str(p).endswith('firmware.bin') else _real_os.path.exists(p))
+        isfile = exists
+
+    class _Os:
+        path = _OsPath()
+
+        def __getattr__(self, name):
+            return getattr(_real_os, name)
+
+        @staticmethod
+        def stat(path, *a, **k):
+            if str(path).endswith('firmware.bin'):
+                return _types.SimpleNamespace(st_size=_reported_size(), st_mode=0o100644, st_mtime=0.0)
+            return _real_os.stat(path, *a, **k)
+    mod.os = _Os()
     mod.time = _Time
     mod.struct = _Struct
     mod.open = _open
@@ -666,7 +695,10 @@ def run_once(p, L, variant, K, inject_mode, prof, sched='one'):
         length = pages * PAGE - int(L.split('-')[1])
         fwh['fw'] = FW.file(length)
     elif isinstance(L, str) and L.startswith('capacity+'):
-        length = pages * PAGE + int(L.split('+')[1])       # concrete oversize length
+        if L.endswith(':pipe'):
+            # the firmware comes through a pipe / FIFO: the size the file system reports (0) is not the amount of data
+            fwh['reported_size'] = 0
+        length = pages * PAGE + int(L.split('+')[1].split(':')[0])       # concrete oversize length
         fwh['fw'] = FW.file(length)
     else:
         length = L
